@@ -463,6 +463,9 @@ func (w *World) Build(c Cell, idx int, h uint32, opts ...BuildOpts) (*Built, err
 	if c.Wval == "extra" || c.Attr == "reserved" {
 		margin = 100000
 	}
+	if c.Form != "ok" { // should the container be let through, nothing else must stand in its way
+		margin = gas
+	}
 	netfee := sizeRecv*w.fpb + attrFee + wcost + d + margin + opt.ExtraFee + opt.ExtraFeePerByte*sizeRecv
 	sysfee := int64(100_0000)
 	if opt.SysFee > 0 || opt.SysFeeSet {
@@ -511,6 +514,13 @@ func (w *World) Build(c Cell, idx int, h uint32, opts ...BuildOpts) (*Built, err
 		"balslack": clip(bal - netfee - sysfee), "recvslack": clip(netfee - (sizeRecv*w.fpb + attrFee + wcost))}
 	if isBadAttr(c.Attr) {
 		f["attr"] = c.Attr
+	}
+	// (defaults from the intended content; replaced below by what the parsed transaction says, if it parses)
+	f["sysover"] = sysfee > w.bc.GetConfig().MaxBlockSystemFee
+	for _, a := range accts {
+		if w.blockedAcc[a.h] {
+			f["blocked"] = true
+		}
 	}
 	if b.Tx != nil {
 		tx := b.Tx
